@@ -630,14 +630,17 @@ class Model():
             left_field_name, right_field_name = \
                 self.get_association_field_names(association)
 
-            if asset in getattr(association, left_field_name):
-                opposite_field_name = right_field_name
-            else:
-                opposite_field_name = left_field_name
-
-            if opposite_field_name == field_name:
+            # An asset can be on both sides of a reflexive association, in
+            # which case both fields provide associated assets.
+            if right_field_name == field_name and \
+                    asset in getattr(association, left_field_name):
                 associated_assets.extend(
-                    getattr(association, opposite_field_name)
+                    getattr(association, right_field_name)
+                )
+            if left_field_name == field_name and \
+                    asset in getattr(association, right_field_name):
+                associated_assets.extend(
+                    getattr(association, left_field_name)
                 )
 
         return associated_assets
